@@ -56,9 +56,9 @@ def totalsEqual (ins outs : List IO) : Bool :=
   (allDenoms ins ++ allDenoms outs).all fun d =>
     Decidable.decide (Coins.amountOf (ins.flatMap (·.coins)) d = Coins.amountOf (outs.flatMap (·.coins)) d)
 
-/-- every paying address can spend the sum of its inputs -/
+/-- every paying address can spend the sum of its inputs (asked for the denoms it pays) -/
 def funded (locked : Addr → Denom → Int) (l : Ledger) (ins : List IO) : Bool :=
-  ins.all fun i => (allDenoms ins).all fun d =>
+  ins.all fun i => (allDenoms (ins.filter fun j => j.addr = i.addr)).all fun d =>
     Decidable.decide (paid ins i.addr d ≤ l.bal i.addr d - locked i.addr d)
 
 def wellFormed (locked : Addr → Denom → Int) (l : Ledger) (ins outs : List IO) : Bool :=
